@@ -69,7 +69,8 @@ class DelayFile:
                     elif i_pin_spec.startswith('(negedge '): i_pol_idxs = [1]
                     else: i_pol_idxs = [0, 1]
                     i_pin_spec = re.sub(r'\((neg|pos)edge ([^)]+)\)', r'\2', i_pin_spec)
-                    if line := cell.ins[tlib.pin_index(cell.kind, i_pin_spec)]:
+                    i_pin = tlib.pin_index(cell.kind, i_pin_spec)
+                    if line := (cell.ins[i_pin] if i_pin < len(cell.ins) else None):
                         delays[line, i_pol_idxs] = [d if len(d) > 0 else [0, 0, 0] for d in dels]
                     else:
                         log.warn(f'No line to annotate in circuit: {i_pin_spec} for {cell}')
